@@ -12,6 +12,10 @@ import Mathlib.Tactic.FieldSimp
 import Mathlib.Tactic.NormNum
 import Mathlib.Tactic.Push
 import Mathlib.Algebra.Order.Field.Basic
+import Mathlib.Tactic.Positivity
+import Mathlib.Algebra.Order.Floor.Ring
+import Mathlib.Data.Rat.Floor
+import Mathlib.Data.List.Forall2
 
 set_option linter.unusedSectionVars false
 set_option linter.unusedVariables false
@@ -751,6 +755,406 @@ theorem ref_alias_witness :
   · have := interp_between (1800 / 3600 : ℚ) 0 1 700 800 [] [] [] [] rfl rfl (by decide)
       (by norm_num) (by norm_num)
     simpa using this.trans (by norm_num)
+
+/-! ## 6. diffusion runs: the schedule is followed to the resolution of the (composition, temperature) table
+
+`TempSched.runDiff`: every evaluation of the fluxes takes `T = temperatureParameters(z, t)` and sends
+every node through `HashCache.cachedQuery`.  Values are tracked by where they were computed
+(`prov x T = (x, T)`; every thermodynamics function factors through it), so "the model diffuses with
+the schedule temperature of the current time" reads: the value in use at node `i` of an evaluation at
+time `t` was computed at a temperature within the table's resolution of `schedule(z_i, t)`. -/
+
+section diffrun
+open KawinV.HashCache
+
+/-! ### the temperatures handed over are the schedule at the time of the evaluation -/
+
+section handed
+variable {β κ ν : Type} [DecidableEq κ]
+variable (cfg : Cfg) (key : Nat → List β → β → κ) (f : List β → β → ν)
+
+theorem queryNodes_length (tab : Table κ ν) (l : List (List β × β)) :
+    (queryNodes cfg key f tab l).1.length = l.length := by
+  induction l generalizing tab with
+  | nil => rfl
+  | cons p r ih => obtain ⟨x, T⟩ := p; simp only [queryNodes, List.length_cons]; rw [ih]
+
+/-- **one evaluation**: whatever the table holds, an evaluation of the fluxes at time `t` that does not
+raise looked every node up at — and, on a miss, called the thermodynamics with — the schedule
+evaluated at `t` (one temperature per node), and reports the time `t`. -/
+theorem fluxEval_hands_over_schedule (temp : β → Option (List β)) (tab : Table κ ν) (t : β)
+    (xs : List (List β)) (o : FluxObs β ν) (h : (fluxEval cfg key f temp tab t xs).1 = some o) :
+    ∃ Ts, temp t = some Ts ∧ xs.length ≤ Ts.length ∧ o.time = t ∧ o.temps = Ts.take xs.length ∧
+      o.vals = (queryNodes cfg key f tab (xs.zip Ts)).1 := by
+  unfold fluxEval at h
+  cases hT : temp t with
+  | none => simp [hT] at h
+  | some Ts =>
+    simp only [hT] at h
+    by_cases hl : Ts.length < xs.length
+    · simp [hl] at h
+    · simp only [hl, if_false, Option.some.injEq] at h
+      subst h
+      exact ⟨Ts, rfl, not_lt.mp hl, rfl, rfl, rfl⟩
+
+/-- **every evaluation of every history**: for every schedule (`temp`), every history of control calls
+and evaluations of the fluxes on any table, every evaluation that did not raise handed over the
+schedule evaluated at its own time. -/
+theorem diffusion_hands_over_schedule (temp : β → Option (List β)) :
+    ∀ (evs : List (DEv β)) (tab : Table κ ν) (o : FluxObs β ν),
+      some o ∈ (runDiff cfg key f temp tab evs).2 →
+      ∃ Ts, temp o.time = some Ts ∧ o.temps = Ts.take o.vals.length
+  | [], _, o, h => by simp [runDiff] at h
+  | .enable b :: r, tab, o, h => by
+    simp only [runDiff] at h; exact diffusion_hands_over_schedule temp r _ o h
+  | .clear :: r, tab, o, h => by
+    simp only [runDiff] at h; exact diffusion_hands_over_schedule temp r _ o h
+  | .setSens s :: r, tab, o, h => by
+    simp only [runDiff] at h; exact diffusion_hands_over_schedule temp r _ o h
+  | .flux t xs :: r, tab, o, h => by
+    simp only [runDiff, List.mem_cons] at h
+    rcases h with h | h
+    · obtain ⟨Ts, hT, hl, ht, htemps, hv⟩ := fluxEval_hands_over_schedule cfg key f temp tab t xs o h.symm
+      refine ⟨Ts, ht ▸ hT, ?_⟩
+      rw [htemps, hv, queryNodes_length, List.length_zip, Nat.min_eq_left hl]
+    · exact diffusion_hands_over_schedule temp r _ o h
+
+end handed
+
+/-- with a `TemperatureParameters` object as the schedule: the constant, the break-point form (the
+piecewise-linear interpolant of section 1 at every node) and the callable `f(z, t)` -/
+theorem diffusion_temps_iso (d : DState α) (T : α) (z : List α) (t : α) :
+    (d.setIso T).eval z t = some (List.replicate z.length T) := rfl
+
+theorem diffusion_temps_between (d : DState α) (z : List α) (t a b fa fb : α) (pre pre' post post' : List α)
+    (hpre : pre.length = pre'.length) (hpost : post.length = post'.length)
+    (h : (pre ++ a :: b :: post).Pairwise (· < ·)) (ha : a * 3600 ≤ t) (hb : t ≤ b * 3600) :
+    (d.setArr (pre ++ a :: b :: post) (pre' ++ fa :: fb :: post')).eval z t
+      = some (List.replicate z.length (fa + (fb - fa) * (t - a * 3600) / (b * 3600 - a * 3600))) := by
+  rw [diffusion_eq_precipitation_arr (PState.ctor .other) d,
+    sched_between ((PState.ctor .other).setArr _ _) t a b fa fb pre pre' post post' rfl hpre hpost h ha hb]
+  rfl
+
+/-! ### a value in use was stored under the key of the point it is used at -/
+
+section provenance
+variable {β κ : Type} [DecidableEq κ]
+variable (Adm : β → Prop) (key : Nat → List β → β → κ)
+
+theorem lookup_mem' {ν : Type} {k : κ} {v : ν} : ∀ {l : List (κ × ν)}, lookup k l = some v → (k, v) ∈ l
+  | [], h => by simp [lookup] at h
+  | (k', v') :: r, h => by
+    simp only [lookup] at h
+    split at h
+    · next hk => simp only [Option.some.injEq] at h; subst hk; subst h; simp
+    · exact List.mem_cons_of_mem _ (lookup_mem' h)
+
+/-- table invariant: every record is stored under the key (at the current precision) of the point it
+was computed at, and that point has an admissible temperature -/
+def SoundP (tab : Table κ (List β × β)) : Prop :=
+  ∀ k p, (k, p) ∈ tab.data → k = key tab.sens p.1 p.2 ∧ Adm p.2
+
+/-- what one node gets: a record of a point with the key of the node's own `(x, T)`; with the table
+switched off, the node's own point -/
+def NodeOK (sens : Nat) (flag : Bool) (q : List β × β) (v : List β × β) : Prop :=
+  Adm v.2 ∧ key sens v.1 v.2 = key sens q.1 q.2 ∧ (flag = false → v = q)
+
+theorem soundP_init : SoundP Adm key (init : Table κ (List β × β)) := by
+  intro k p h; simp [init] at h
+
+theorem cachedQuery_prov (tab : Table κ (List β × β)) (hs : SoundP Adm key tab) (x : List β) (T : β)
+    (hT : Adm T) :
+    SoundP Adm key (cachedQuery Cfg.fixed key prov tab x T).2 ∧
+    (cachedQuery Cfg.fixed key prov tab x T).2.sens = tab.sens ∧
+    (cachedQuery Cfg.fixed key prov tab x T).2.flag = tab.flag ∧
+    NodeOK Adm key tab.sens tab.flag (x, T) (cachedQuery Cfg.fixed key prov tab x T).1 := by
+  unfold cachedQuery
+  cases hr : retrieve Cfg.fixed key tab x T with
+  | some v =>
+    dsimp only
+    refine ⟨hs, rfl, rfl, ?_⟩
+    simp only [retrieve, isOn, Cfg.fixed, if_true] at hr
+    cases hf : tab.flag with
+    | false => simp [hf] at hr
+    | true =>
+      simp only [hf, if_true] at hr
+      obtain ⟨hk, ha⟩ := hs _ _ (lookup_mem' hr)
+      exact ⟨ha, hk.symm, fun h => by simp at h⟩
+  | none =>
+    dsimp only
+    cases hf : tab.flag with
+    | false =>
+      have e : HashCache.step Cfg.fixed key tab (.add x T (prov x T)) = tab := by
+        simp [HashCache.step, isOn, Cfg.fixed, hf]
+      rw [e]
+      exact ⟨hs, rfl, hf, hT, rfl, fun _ => rfl⟩
+    | true =>
+      have e : HashCache.step Cfg.fixed key tab (.add x T (prov x T))
+          = { tab with data := (key tab.sens x T, prov x T) :: tab.data } := by
+        simp [HashCache.step, isOn, Cfg.fixed, hf]
+      rw [e]
+      refine ⟨?_, rfl, hf, hT, rfl, fun h => by simp at h⟩
+      intro k p hm
+      simp only [List.mem_cons] at hm
+      rcases hm with hm | hm
+      · simp only [Prod.mk.injEq] at hm
+        obtain ⟨rfl, rfl⟩ := hm
+        exact ⟨rfl, hT⟩
+      · exact hs k p hm
+
+theorem queryNodes_prov : ∀ (l : List (List β × β)) (tab : Table κ (List β × β)), SoundP Adm key tab →
+    (∀ q ∈ l, Adm q.2) →
+    SoundP Adm key (queryNodes Cfg.fixed key prov tab l).2 ∧
+    (queryNodes Cfg.fixed key prov tab l).2.sens = tab.sens ∧
+    (queryNodes Cfg.fixed key prov tab l).2.flag = tab.flag ∧
+      List.Forall₂ (NodeOK Adm key tab.sens tab.flag) l (queryNodes Cfg.fixed key prov tab l).1
+  | [], tab, hs, _ => ⟨hs, rfl, rfl, List.Forall₂.nil⟩
+  | (x, T) :: r, tab, hs, ha => by
+    obtain ⟨h1, h2, h3, h4⟩ := cachedQuery_prov Adm key tab hs x T (ha (x, T) (by simp))
+    obtain ⟨g1, g2, g3, g4⟩ := queryNodes_prov r _ h1 (fun q hq => ha q (by simp [hq]))
+    simp only [queryNodes]
+    refine ⟨g1, g2.trans h2, g3.trans h3, List.Forall₂.cons h4 ?_⟩
+    rw [h2, h3] at g4
+    exact g4
+
+/-- every temperature the schedule produces in the evaluations of a history is admissible -/
+def AdmRun (temp : β → Option (List β)) (evs : List (DEv β)) : Prop :=
+  ∀ t xs, DEv.flux t xs ∈ evs → ∀ Ts, temp t = some Ts → ∀ T ∈ Ts, Adm T
+
+theorem mem_zip_snd {γ δ : Type} : ∀ (l : List γ) (m : List δ) (q : γ × δ), q ∈ l.zip m → q.2 ∈ m
+  | [], _, q, h => by simp at h
+  | _ :: _, [], q, h => by simp at h
+  | a :: l, b :: m, q, h => by
+    simp only [List.zip_cons_cons, List.mem_cons] at h
+    rcases h with rfl | h
+    · simp
+    · exact List.mem_cons_of_mem _ (mem_zip_snd l m q h)
+
+theorem fluxEval_sound (temp : β → Option (List β)) (tab : Table κ (List β × β)) (hs : SoundP Adm key tab)
+    (t : β) (xs : List (List β)) (ha : ∀ Ts, temp t = some Ts → ∀ T ∈ Ts, Adm T) :
+    SoundP Adm key (fluxEval Cfg.fixed key prov temp tab t xs).2 := by
+  unfold fluxEval
+  cases hT : temp t with
+  | none => exact hs
+  | some Ts =>
+    exact (queryNodes_prov Adm key (xs.zip Ts) tab hs
+      (fun q hq => ha Ts hT q.2 (mem_zip_snd xs Ts q hq))).1
+
+theorem runDiff_sound (temp : β → Option (List β)) :
+    ∀ (evs : List (DEv β)) (tab : Table κ (List β × β)), SoundP Adm key tab → AdmRun Adm temp evs →
+      SoundP Adm key (runDiff Cfg.fixed key prov temp tab evs).1
+  | [], tab, hs, _ => by simpa [runDiff] using hs
+  | .enable b :: r, tab, hs, ha => by
+    simp only [runDiff]
+    refine runDiff_sound temp r _ ?_ (fun t xs hm => ha t xs (by simp [hm]))
+    simpa [HashCache.step, SoundP] using hs
+  | .clear :: r, tab, hs, ha => by
+    simp only [runDiff]
+    refine runDiff_sound temp r _ ?_ (fun t xs hm => ha t xs (by simp [hm]))
+    intro k p hm; simp [HashCache.step] at hm
+  | .setSens s :: r, tab, hs, ha => by
+    simp only [runDiff]
+    refine runDiff_sound temp r _ ?_ (fun t xs hm => ha t xs (by simp [hm]))
+    intro k p hm; simp [HashCache.step, Cfg.fixed] at hm
+  | .flux t xs :: r, tab, hs, ha => by
+    simp only [runDiff]
+    exact runDiff_sound temp r _ (fluxEval_sound Adm key temp tab hs t xs (ha t xs (by simp)))
+      (fun t' xs' hm => ha t' xs' (by simp [hm]))
+
+/-- **the value in use, for every history and every key function**: after any history of control
+calls (`useCache`, `clearCache`, `setHashSensitivity`) and evaluations of the fluxes on a new table,
+in the next evaluation at time `t` every node `(x_i, T_i)` — `T_i` the schedule at `t` — uses a value
+computed at a point with the SAME KEY (at the current precision) as `(x_i, T_i)`; with the table
+switched off, computed at `(x_i, T_i)` itself. -/
+theorem diffusion_value_in_use_has_equal_key (temp : β → Option (List β)) (evs : List (DEv β))
+    (hev : AdmRun Adm temp evs) (t : β) (xs : List (List β)) (o : FluxObs β (List β × β))
+    (ha : ∀ Ts, temp t = some Ts → ∀ T ∈ Ts, Adm T) :
+    let tab := (runDiff Cfg.fixed key prov temp (init : Table κ (List β × β)) evs).1
+    (fluxEval Cfg.fixed key prov temp tab t xs).1 = some o →
+      ∃ Ts, temp t = some Ts ∧ o.temps = Ts.take xs.length ∧
+        List.Forall₂ (NodeOK Adm key tab.sens tab.flag) (xs.zip Ts) o.vals := by
+  intro tab ho
+  obtain ⟨Ts, hT, _, _, htemps, hv⟩ := fluxEval_hands_over_schedule Cfg.fixed key prov temp tab t xs o ho
+  refine ⟨Ts, hT, htemps, ?_⟩
+  rw [hv]
+  exact (queryNodes_prov Adm key (xs.zip Ts) tab
+    (runDiff_sound Adm key temp evs _ (soundP_init Adm key) hev)
+    (fun q hq => ha Ts hT q.2 (mem_zip_snd xs Ts q hq))).2.2.2
+
+end provenance
+
+/-! ### the key of the code: temperature scaled like the composition -/
+
+section key
+variable [FloorRing α]
+
+/-- `astype(int)`: truncation toward zero -/
+def truncZ (v : α) : Int := if 0 ≤ v then ⌊v⌋ else ⌈v⌉
+
+/-- the key arithmetic over an ordered field with a floor function -/
+@[reducible] def fieldKey : KeyScalar α := ⟨fun n => (n : α), fun a b => a * b, fun v => some (truncZ v)⟩
+
+/-- the code's key (`HashCache.keyExact`: every component of `x ++ [T]` times `10^s`, truncated) -/
+def keyF (s : Nat) (x : List α) (T : α) : List (Option Int) := @keyExact α fieldKey s x T
+
+/-- the key with the temperature left unscaled (`TempSched.keyKelvin`) -/
+def keyKelvinF (s : Nat) (x : List α) (T : α) : List (Option Int) := @keyKelvin α fieldKey s x T
+
+theorem scaled_eq (s : Nat) (v : α) : @scaled α fieldKey s v = some (truncZ (v * (10:α) ^ s)) := by
+  show some (truncZ (v * ((10 ^ s : ℕ) : α))) = _
+  rw [Nat.cast_pow]; norm_num
+
+/-- equal scaled-and-truncated values of non-negative numbers are closer than `10^-s` -/
+theorem scaled_close (s : Nat) (v w : α) (hv : 0 ≤ v) (hw : 0 ≤ w)
+    (h : @scaled α fieldKey s v = @scaled α fieldKey s w) : |v - w| < 1 / (10:α) ^ s := by
+  rw [scaled_eq, scaled_eq] at h
+  have hp : (0:α) < (10:α) ^ s := by positivity
+  have h0 := Option.some.inj h
+  simp only [truncZ, mul_nonneg hv hp.le, mul_nonneg hw hp.le, if_true] at h0
+  have h1 := Int.abs_sub_lt_one_of_floor_eq_floor h0
+  rw [← sub_mul, abs_mul, abs_of_pos hp] at h1
+  rw [lt_div_iff₀ hp]; exact h1
+
+/-- the temperature component of the code's key -/
+theorem keyF_temperature (s : Nat) (x x' : List α) (T T' : α) (h : keyF s x T = keyF s x' T') :
+    @scaled α fieldKey s T = @scaled α fieldKey s T' := by
+  unfold keyF keyExact at h
+  rw [List.map_append, List.map_append, List.map_singleton, List.map_singleton] at h
+  exact (List.append_singleton_inj.mp h).2
+
+/-- **resolution of the code's key in temperature**: two points with non-negative (absolute)
+temperatures and equal keys at precision `s` are less than `10^-s` K apart -/
+theorem keyF_eq_close (s : Nat) (x x' : List α) (T T' : α) (hT : 0 ≤ T) (hT' : 0 ≤ T')
+    (h : keyF s x T = keyF s x' T') : |T - T'| < 1 / (10:α) ^ s :=
+  scaled_close s T T' hT hT' (keyF_temperature s x x' T T' h)
+
+theorem nodeOK_close (s : Nat) (flag : Bool) (l : List (List α × α)) (vs : List (List α × α))
+    (hadm : ∀ q ∈ l, (0:α) ≤ q.2)
+    (hf : List.Forall₂ (NodeOK (fun T => (0:α) ≤ T) keyF s flag) l vs) :
+    List.Forall₂ (fun q v => |q.2 - v.2| < 1 / (10:α) ^ s ∧ (flag = false → v = q)) l vs := by
+  induction hf with
+  | nil => exact List.Forall₂.nil
+  | @cons q v l vs hqv _ ih =>
+    refine List.Forall₂.cons ⟨?_, hqv.2.2⟩ (ih (fun q' hq' => hadm q' (by simp [hq'])))
+    exact keyF_eq_close _ q.1 v.1 q.2 v.2 (hadm q (by simp)) hqv.1 hqv.2.1.symm
+
+/-- **the schedule is followed to the resolution of the table** (what the oracle on the runs relies
+on).  For every schedule with non-negative temperatures, every history of control calls and
+evaluations of the fluxes on a new table, and every next evaluation at time `t`: each node was
+looked up at the schedule temperature of time `t`, and the value it uses was computed at a
+temperature less than `10^-s` K from it (`s` = the table's current number of digits) — however slow
+or fast the schedule changes; with the table switched off, at exactly the schedule temperature and
+the node's composition. -/
+theorem schedule_followed_to_cache_resolution (temp : α → Option (List α)) (evs : List (DEv α))
+    (hev : AdmRun (fun T => (0:α) ≤ T) temp evs) (t : α) (xs : List (List α))
+    (o : FluxObs α (List α × α)) (ha : ∀ Ts, temp t = some Ts → ∀ T ∈ Ts, 0 ≤ T) :
+    let tab := (runDiff Cfg.fixed keyF prov temp (init : Table (List (Option Int)) (List α × α)) evs).1
+    (fluxEval Cfg.fixed keyF prov temp tab t xs).1 = some o →
+      ∃ Ts, temp t = some Ts ∧ o.temps = Ts.take xs.length ∧
+        List.Forall₂ (fun q v => |q.2 - v.2| < 1 / (10:α) ^ tab.sens ∧ (tab.flag = false → v = q))
+          (xs.zip Ts) o.vals := by
+  intro tab ho
+  obtain ⟨Ts, hT, htemps, hf⟩ :=
+    diffusion_value_in_use_has_equal_key (fun T => (0:α) ≤ T) keyF temp evs hev t xs o ha ho
+  refine ⟨Ts, hT, htemps, ?_⟩
+  exact nodeOK_close _ _ _ _ (fun q hq => ha Ts hT q.2 (mem_zip_snd xs Ts q hq)) hf
+
+/-- **witness (temperature left unscaled)**: two schedule temperatures inside one kelvin — a whole
+number of kelvin and anything less than one kelvin above it — share a key AT EVERY PRECISION `s`,
+so a table keyed like that answers the later temperature with the value of the earlier one -/
+theorem schedule_within_kelvin_collides (s : Nat) (x : List α) (n : ℕ) (d : α) (h0 : 0 ≤ d) (h1 : d < 1) :
+    keyKelvinF s x (n : α) = keyKelvinF s x ((n : α) + d) := by
+  have hn : (0:α) ≤ (n : α) := Nat.cast_nonneg n
+  have e1 : truncZ ((n : α)) = (n : ℤ) := by
+    simp only [truncZ, hn, if_true]; exact Int.floor_natCast n
+  have e2 : truncZ ((n : α) + d) = (n : ℤ) := by
+    have : (0:α) ≤ (n : α) + d := add_nonneg hn h0
+    simp only [truncZ, this, if_true]
+    rw [Int.floor_eq_iff]
+    constructor
+    · push_cast; linarith
+    · push_cast; linarith
+  simp only [keyKelvinF, keyKelvin, KeyScalar.trunc, e1, e2]
+
+/-- the demonstration ramp 1073.05 K → 1073.95 K: one key with the temperature unscaled, whatever `s` … -/
+theorem kelvin_key_merges_ramp (s : Nat) (x : List α) :
+    keyKelvinF s x ((1073 : α) + 1 / 20) = keyKelvinF s x ((1073 : α) + 19 / 20) := by
+  have a := schedule_within_kelvin_collides s x 1073 ((1:α) / 20) (by norm_num) (by norm_num)
+  have b := schedule_within_kelvin_collides s x 1073 ((19:α) / 20) (by norm_num) (by norm_num)
+  simpa using a.symm.trans b
+
+/-- … and two different keys with the code's key at every precision of at least one digit -/
+theorem code_key_separates_ramp (s : Nat) (hs : 1 ≤ s) (x x' : List α) :
+    keyF s x ((1073 : α) + 1 / 20) ≠ keyF s x' ((1073 : α) + 19 / 20) := by
+  intro h
+  have hc := keyF_eq_close s x x' _ _ (by norm_num) (by norm_num) h
+  have h10 : (10:α) ^ 1 ≤ (10:α) ^ s := pow_le_pow_right₀ (by norm_num) hs
+  have hp : (0:α) < (10:α) ^ s := by positivity
+  rw [lt_div_iff₀ hp] at hc
+  have : |(1073:α) + 1 / 20 - (1073 + 19 / 20)| = 9 / 10 := by
+    rw [show (1073:α) + 1 / 20 - (1073 + 19 / 20) = -(9 / 10) by ring, abs_neg, abs_of_pos (by norm_num)]
+  rw [this] at hc
+  nlinarith
+
+end key
+
+/-! ### witnesses on exact decimals (`HashCache.Dec`; `decide` computes): a three-evaluation run -/
+
+section witness
+
+/-- the slow ramp of the demonstration as a schedule over exact decimals: evaluation `k = 0, 1, 2` is at
+1073.05 K, 1073.50 K, 1073.95 K (one node) -/
+def rampDec : Dec → Option (List Dec) := fun t => some [⟨107305 + 45 * t.m, 2⟩]
+
+/-- one node whose composition 0.2 does not change, three evaluations along the ramp -/
+def rampEvs : List (DEv Dec) := [.flux ⟨0, 0⟩ [[⟨2, 1⟩]], .flux ⟨1, 0⟩ [[⟨2, 1⟩]], .flux ⟨2, 0⟩ [[⟨2, 1⟩]]]
+
+/-- **temperature left unscaled — the run does NOT follow the schedule**: the value computed at
+1073.05 K in the first evaluation is the one in use at 1073.50 K and at 1073.95 K (0.9 K off;
+2.6 % in an Arrhenius diffusivity with Q = 287 kJ/mol) -/
+theorem kelvin_key_run_is_stale :
+    ((runDiff Cfg.fixed (keyKelvin (α := Dec)) prov rampDec (init : Table (List (Option Int)) (List Dec × Dec))
+      rampEvs).2.map (Option.map (fun o => (o.temps, o.vals.map Prod.snd))))
+      = [some ([⟨107305, 2⟩], [⟨107305, 2⟩]), some ([⟨107350, 2⟩], [⟨107305, 2⟩]),
+         some ([⟨107395, 2⟩], [⟨107305, 2⟩])] := by decide
+
+/-- **the code's key — every evaluation uses a value computed at its own schedule temperature** -/
+theorem code_key_run_follows_schedule :
+    ((runDiff Cfg.fixed (keyExact (α := Dec)) prov rampDec (init : Table (List (Option Int)) (List Dec × Dec))
+      rampEvs).2.map (Option.map (fun o => (o.temps, o.vals.map Prod.snd))))
+      = [some ([⟨107305, 2⟩], [⟨107305, 2⟩]), some ([⟨107350, 2⟩], [⟨107350, 2⟩]),
+         some ([⟨107395, 2⟩], [⟨107395, 2⟩])] := by decide
+
+end witness
+
+/-! ### non-vacuity of the new hypothesis sets -/
+
+/-- two DIFFERENT schedule temperatures with equal keys exist (so `keyF_eq_close` is not vacuous):
+1073 K and 1073.00003 K at four digits … -/
+example : keyF 4 [(1:ℚ) / 5] 1073 = keyF 4 [(1:ℚ) / 5] (1073 + 3 / 100000) := by
+  have f1 : truncZ ((1:ℚ) / 5 * 10 ^ 4) = 2000 := by simp only [truncZ]; norm_num
+  have f3 : truncZ ((1073:ℚ) * 10 ^ 4) = 10730000 := by simp only [truncZ]; norm_num
+  have f4 : truncZ (((1073:ℚ) + 3 / 100000) * 10 ^ 4) = 10730000 := by
+    have : (0:ℚ) ≤ ((1073:ℚ) + 3 / 100000) * 10 ^ 4 := by norm_num
+    simp only [truncZ, this, if_true]; rw [Int.floor_eq_iff]; norm_num
+  simp only [keyF, keyExact, List.map_append, List.map_cons, List.map_nil, scaled_eq, f1, f3, f4]
+
+/-- … and a history on a slow ramp (a control call in between) meets `AdmRun` with the non-negative
+temperatures of `schedule_followed_to_cache_resolution` -/
+example : AdmRun (fun T => (0:ℚ) ≤ T) (fun t => some [1073 + t / 1000, 1073 + t / 1000 + 1 / 2])
+    [.flux 0 [[1 / 5], [3 / 10]], .setSens 6, .flux 100 [[1 / 5], [3 / 10]]] := by
+  intro t xs hm Ts hT T hmem
+  simp only [List.mem_cons, List.mem_nil_iff, or_false, reduceCtorEq, false_or, DEv.flux.injEq] at hm
+  simp only [Option.some.injEq] at hT
+  subst hT
+  simp only [List.mem_cons, List.mem_nil_iff, or_false] at hmem
+  rcases hm with ⟨rfl, _⟩ | ⟨rfl, _⟩ <;> rcases hmem with rfl | rfl <;> norm_num
+
+/-- the hypotheses of `diffusion_temps_between`: the slow ramp 1073.05 K → 1073.95 K over 2 h, at 1800 s -/
+example : ([] ++ (0:ℚ) :: 2 :: []).Pairwise (· < ·) ∧ (0:ℚ) * 3600 ≤ 1800 ∧ (1800:ℚ) ≤ 2 * 3600 := by
+  refine ⟨by decide, by norm_num, by norm_num⟩
+
+end diffrun
 
 /-! ### non-vacuity: the hypotheses are satisfiable -/
 
